@@ -72,6 +72,61 @@ theorem aggregate_total_two (h1 h2 : Hist)
   rw [r1, r2]
   simp [wsum, total]
 
+theorem addTo_pos (d : Hist) (k : List Bool) (v : Rat) (hd : ∀ kv ∈ d, kv.2 > 0) (hv : v > 0) :
+    ∀ kv ∈ addTo d k v, kv.2 > 0 := by
+  induction d with
+  | nil => simp [addTo]; exact hv
+  | cons p rest ih =>
+    obtain ⟨k', v'⟩ := p
+    have hp : v' > 0 := hd (k', v') (by simp)
+    simp only [addTo]
+    split
+    · intro kv hkv
+      rcases List.mem_cons.mp hkv with e | e
+      · subst e; simp; linarith
+      · exact hd kv (by simp [e])
+    · intro kv hkv
+      rcases List.mem_cons.mp hkv with e | e
+      · subst e; exact hp
+      · exact ih (fun kv h => hd kv (by simp [h])) kv e
+
+theorem merge_pos (h acc : Hist) (hh : ∀ kv ∈ h, kv.2 > 0) (ha : ∀ kv ∈ acc, kv.2 > 0) :
+    ∀ kv ∈ h.foldl (fun a (kv : List Bool × Rat) => addTo a kv.1 kv.2) acc, kv.2 > 0 := by
+  induction h generalizing acc with
+  | nil => simpa using ha
+  | cons p rest ih =>
+    simp only [List.foldl_cons]
+    exact ih _ (fun kv h => hh kv (by simp [h])) (addTo_pos acc p.1 p.2 ha (hh p (by simp)))
+
+theorem merge_total (h acc : Hist) :
+    total (h.foldl (fun a (kv : List Bool × Rat) => addTo a kv.1 kv.2) acc) = total acc + total h := by
+  have r := wsum_rekey (fun _ => 1) id h acc
+  simp only [id] at r
+  rw [total_eq_wsum, r]; simp [wsum, total]
+
+/-- **aggregation of any number of histograms adds the totals** (positive counts, which is what a histogram holds:
+    `Counter` addition would drop non-positive entries) -/
+theorem aggregate_total (hs : List Hist) (hpos : ∀ h ∈ hs, ∀ kv ∈ h, kv.2 > 0) :
+    total (aggregate hs) = (hs.map total).sum := by
+  simp only [aggregate]
+  have key : ∀ (hs : List Hist) (acc : Hist), (∀ h ∈ hs, ∀ kv ∈ h, kv.2 > 0) → (∀ kv ∈ acc, kv.2 > 0) →
+      (∀ kv ∈ hs.foldl (fun acc h => h.foldl (fun a (kv : List Bool × Rat) => addTo a kv.1 kv.2) acc) acc, kv.2 > 0) ∧
+      total (hs.foldl (fun acc h => h.foldl (fun a (kv : List Bool × Rat) => addTo a kv.1 kv.2) acc) acc) =
+        total acc + (hs.map total).sum := by
+    intro hs
+    induction hs with
+    | nil => intro acc _ ha; exact ⟨by simpa using ha, by simp⟩
+    | cons h rest ih =>
+      intro acc hh ha
+      simp only [List.foldl_cons, List.map_cons, List.sum_cons]
+      have h1 := merge_pos h acc (hh h (by simp)) ha
+      obtain ⟨p1, p2⟩ := ih _ (fun h' hm => hh h' (by simp [hm])) h1
+      refine ⟨p1, ?_⟩
+      rw [p2, merge_total]; ring
+  obtain ⟨p1, p2⟩ := key hs [] hpos (by simp)
+  rw [List.filter_eq_self.mpr (by intro kv hkv; simpa using p1 kv hkv), p2]
+  simp [total]
+
 /-- **marginalisation invariance**: if the parity of a term on the shortened bitstring equals its parity on the
     full bitstring (the removed qubits are outside the term's support), removing those qubits leaves the
     signed sum - and with `remove_total` the expectation value - unchanged. -/
